@@ -150,10 +150,12 @@ def r4_emission(run, F):
         cons = [hirq.short(p) for p, _ in hirq.constructs(b["hir"])]
         run.ob("R4-EMISSION-SITE", err.split("::")[-1], err in cons, F.where(b), "%s must build %s" % (fn.split("::")[-1], err))
     # duplicates are searched among the right kind of previous declarations
-    for fn, flt in ((AN + "declare_constant", "(x.is_structure == false)"), (AN + "declare_struct", "x.is_structure")):
+    for fn, flt in ((AN + "declare_constant", "($c1.is_structure == false)"), (AN + "declare_struct", "$c1.is_structure")):
         b = F.body(fn)
         fl = [c for c in hirq.calls(b["hir"]) if c.get("k") == "MethodCall" and c.get("name") == "filter"]
-        got = hirq.summarize_bool(fl[0]["a"][0]["body"]) if fl and fl[0]["a"][0].get("k") == "Closure" else None
+        got = hirq.summarize_bool(fl[0]["a"][0]["body"], hirq.full_env(b)) if fl and fl[0]["a"][0].get("k") == "Closure" else None
+        if got == "!$c1.is_structure":
+            got = "($c1.is_structure == false)"
         run.ob("R4-DUPLICATE-SCOPE", fn.split("::")[-1], got == flt, F.where(b), "duplicates are looked up with filter %s (found %s)" % (flt, got))
     fc = F.body(AN + "found_container_1")
     cons = [hirq.short(p) for p, _ in hirq.constructs(fc["hir"])]
